@@ -150,6 +150,7 @@ class Sim:
         self._pct_points = None
         self._in_gc = False
         self._in_inv = False
+        self._plan = []
 
     # ---------------------------------------------------------------- logging (no rng, no clock)
     def log(self, *a):
@@ -244,6 +245,15 @@ class Sim:
                 batch.append(e)
         if len(batch) > 1:
             self.count('timer_tie')
+            if self.chance(0.5):
+                # "timeout race" plan: of the threads woken at this same instant, let one run for a few (0..7) scheduling points -
+                # long enough to conclude something from its timeout, not long enough to act on it - then run another one for a long
+                # uninterrupted burst. This is the schedule behind every check-then-act bug after a timed wait (poll expired, then
+                # "is the producer still alive?"): each half is unlikely under a memoryless scheduler, together they almost never happen.
+                i = self.choose(len(batch))
+                j = (i + 1 + self.choose(len(batch) - 1)) % len(batch)
+                self._plan = [(batch[i][2], self.choose(8)), (batch[j][2], 400)]
+                self.count('timeout_race_plan')
         if when > self.now:
             self.now = when
         for _, _, t, tok in batch:
@@ -349,6 +359,12 @@ class Sim:
         if n == 1:
             return rs[0]
         self.multi_steps += 1
+        while self._plan:
+            t, rem = self._plan[0]
+            if rem > 0 and t.state == 'runnable':
+                self._plan[0] = (t, rem - 1)
+                return t
+            self._plan.pop(0)
         strat = self.strategy
         if strat == 'pct':
             return self._pick_pct(me, rs)
